@@ -9,6 +9,8 @@ use crate::crypto::*;
 use crate::path::plain_file_name;
 use byteorder::{LittleEndian, ReadBytesExt};
 use std::io::Cursor;
+use std::io::{Seek, SeekFrom, Write};
+use crate::header::FormatVersion;
 
 pub fn stub_format(_args: core::fmt::Arguments<'_>) -> String {
     String::new()
@@ -487,6 +489,113 @@ fn u02_5_header_read_layout() {
     }
 }
 
+
+// ------------------------------------------------------------------------------------ U02.6 header reader (V3 / V4) and editor header writer
+// MpqHeader::read decodes the extended words from their published offsets: 64-bit archive size +0x2C, BET position +0x34,
+// HET position +0x3C; with a 208-byte header the five 64-bit sizes at +0x44, raw chunk size at +0x6C, six digests from +0x70.
+fn header_read_v34(buf: &[u8], v4: bool) {
+    use crate::header::MpqHeader;
+    let mut c = Cursor::new(buf);
+    match MpqHeader::read(&mut c) {
+        Ok(h) => {
+            let w32 = |o: usize| u32::from_le_bytes([buf[o], buf[o + 1], buf[o + 2], buf[o + 3]]);
+            let w16 = |o: usize| u16::from_le_bytes([buf[o], buf[o + 1]]);
+            let w64 = |o: usize| u64::from(w32(o)) | (u64::from(w32(o + 4)) << 32);
+            assert!(buf[0] == b'M' && buf[1] == b'P' && buf[2] == b'Q' && buf[3] == 0x1A, "only the published signature is accepted");
+            assert!(h.header_size == w32(4) && h.archive_size == w32(8) && h.block_size == w16(14), "size fields and sector shift");
+            assert!(h.hash_table_pos == w32(16) && h.block_table_pos == w32(20) && h.hash_table_size == w32(24) && h.block_table_size == w32(28), "table words");
+            assert!(h.hi_block_table_pos == Some(w64(32)) && h.hash_table_pos_hi == Some(w16(40)) && h.block_table_pos_hi == Some(w16(42)), "V2 words");
+            assert!(h.archive_size_64 == Some(w64(0x2C)), "64-bit archive size at +0x2C");
+            assert!(h.bet_table_pos == Some(w64(0x34)), "BET table position at +0x34");
+            assert!(h.het_table_pos == Some(w64(0x3C)), "HET table position at +0x3C");
+            if v4 {
+                assert!((w32(4) >= 208) == h.v4_data.is_some(), "the V4 words are read exactly when the header declares 208 bytes");
+                if let Some(d) = &h.v4_data {
+                    assert!(d.hash_table_size_64 == w64(0x44) && d.block_table_size_64 == w64(0x4C) && d.hi_block_table_size_64 == w64(0x54), "sizes of hash, block, hi-block table");
+                    assert!(d.het_table_size_64 == w64(0x5C) && d.bet_table_size_64 == w64(0x64) && d.raw_chunk_size == w32(0x6C), "sizes of HET, BET table, raw chunk size");
+                    let j: usize = kani::any();
+                    kani::assume(j < 16);
+                    assert!(d.md5_block_table[j] == buf[0x70 + j] && d.md5_hash_table[j] == buf[0x80 + j] && d.md5_hi_block_table[j] == buf[0x90 + j], "digests of block, hash, hi-block table");
+                    assert!(d.md5_bet_table[j] == buf[0xA0 + j] && d.md5_het_table[j] == buf[0xB0 + j] && d.md5_mpq_header[j] == buf[0xC0 + j], "digests of BET, HET table, header");
+                }
+            }
+            core::mem::forget(h);
+        }
+        Err(e) => core::mem::forget(e),
+    }
+}
+
+// @harness unit=U02.6 props=C02,C01,C05 kind=complete timeout=900 target="header.rs: MpqHeader::read_with_limits, format V3 with a 68..207-byte header (72 symbolic bytes)" oracle=mpq_interop
+#[kani::proof]
+#[kani::unwind(18)]
+#[kani::stub(alloc::fmt::format, stub_format)]
+fn u02_6_header_read_layout_v3() {
+    let buf: [u8; 72] = kani::any();
+    kani::assume(buf[12] == 2 && buf[13] == 0);
+    kani::assume(u32::from_le_bytes([buf[4], buf[5], buf[6], buf[7]]) < 208);
+    header_read_v34(&buf[..], false);
+}
+
+// @harness unit=U02.6 props=C02,C01,C05 kind=complete timeout=1200 target="header.rs: MpqHeader::read_with_limits, formats V3/V4 with any declared header size (212 symbolic bytes)" oracle=mpq_interop
+#[kani::proof]
+#[kani::unwind(18)]
+#[kani::stub(alloc::fmt::format, stub_format)]
+fn u02_6_header_read_layout_v4() {
+    let buf: [u8; 212] = kani::any();
+    kani::assume((buf[12] == 2 || buf[12] == 3) && buf[13] == 0);
+    header_read_v34(&buf[..], true);
+}
+
+// MutableArchive::update_header (E11 block: the `if needs_update { .. }` statement, self.file -> an in-memory cursor): the
+// rewritten header carries every field of the (updated) header at its published offset - what MpqHeader::read decodes.
+// @harness unit=U02.6 props=C06,C02 kind=complete timeout=900 target="modification.rs: update_header, header emission statement (E11 block), V1-V3 headers, every field value" oracle=mod_model
+#[kani::proof]
+#[kani::unwind(18)]
+#[kani::stub(alloc::fmt::format, stub_format)]
+fn u02_6_editor_header_layout() {
+    use crate::header::{FormatVersion, MpqHeader};
+    let ver: u8 = kani::any();
+    kani::assume(ver <= 2);
+    let fv = if ver == 0 { FormatVersion::V1 } else if ver == 1 { FormatVersion::V2 } else { FormatVersion::V3 };
+    let opt64 = |present: bool| -> Option<u64> { if present { Some(kani::any()) } else { None } };
+    let h = MpqHeader { header_size: kani::any(), archive_size: kani::any(), format_version: fv, block_size: kani::any(), hash_table_pos: kani::any(),
+        block_table_pos: kani::any(), hash_table_size: kani::any(), block_table_size: kani::any(),
+        hi_block_table_pos: if ver >= 1 { Some(kani::any()) } else { None }, hash_table_pos_hi: if ver >= 1 { Some(kani::any()) } else { None },
+        block_table_pos_hi: if ver >= 1 { Some(kani::any()) } else { None }, archive_size_64: if ver >= 2 { Some(kani::any()) } else { None },
+        bet_table_pos: if ver >= 2 { Some(kani::any()) } else { None }, het_table_pos: if ver >= 2 { Some(kani::any()) } else { None }, v4_data: None };
+    let upd_hash = opt64(kani::any());
+    let upd_block = opt64(kani::any());
+    let upd_het = opt64(ver >= 2 && kani::any());
+    let upd_bet = opt64(ver >= 2 && kani::any());
+    // in-place positions stay below 4 GiB (the editor keeps the high words of the original header)
+    if let Some(x) = upd_hash { kani::assume(x <= u32::MAX as u64); }
+    if let Some(x) = upd_block { kani::assume(x <= u32::MAX as u64); }
+    let mut buf = [0xAAu8; 72];
+    let n = {
+        let mut c = Cursor::new(&mut buf[..]);
+        match blk_editor_header_emit(&mut c, 0, &h, true, upd_hash, upd_block, upd_het, upd_bet) { Ok(()) => {}, Err(e) => { core::mem::forget(e); assert!(false, "writing into a large enough buffer succeeds"); } }
+        c.position() as usize
+    };
+    let want = if ver == 0 { 32 } else if ver == 1 { 44 } else { 68 };
+    assert!(n == want, "the header bytes of its version are written");
+    let w32 = |o: usize| u32::from_le_bytes([buf[o], buf[o + 1], buf[o + 2], buf[o + 3]]);
+    let w16 = |o: usize| u16::from_le_bytes([buf[o], buf[o + 1]]);
+    let w64 = |o: usize| u64::from(w32(o)) | (u64::from(w32(o + 4)) << 32);
+    assert!(buf[0] == b'M' && buf[1] == b'P' && buf[2] == b'Q' && buf[3] == 0x1A, "signature");
+    assert!(w32(4) == h.header_size && w32(8) == h.archive_size && w16(12) == ver as u16 && w16(14) == h.block_size, "size fields, version, sector shift");
+    assert!(w32(16) == upd_hash.map(|x| x as u32).unwrap_or(h.hash_table_pos) && w32(20) == upd_block.map(|x| x as u32).unwrap_or(h.block_table_pos), "table positions (updated ones win)");
+    assert!(w32(24) == h.hash_table_size && w32(28) == h.block_table_size, "table sizes");
+    if ver >= 1 {
+        assert!(w64(32) == h.hi_block_table_pos.unwrap_or(0) && w16(40) == h.hash_table_pos_hi.unwrap_or(0) && w16(42) == h.block_table_pos_hi.unwrap_or(0), "V2 words");
+    }
+    if ver >= 2 {
+        assert!(w64(0x2C) == h.archive_size_64.unwrap_or(0), "64-bit archive size at +0x2C");
+        assert!(w64(0x34) == upd_bet.or(h.bet_table_pos).unwrap_or(0), "BET table position at +0x34 (updated one wins)");
+        assert!(w64(0x3C) == upd_het.or(h.het_table_pos).unwrap_or(0), "HET table position at +0x3C (updated one wins)");
+    }
+    assert!(buf[want] == 0xAA, "nothing beyond the header");
+    core::mem::forget(h);
+}
 
 // ------------------------------------------------------------------------------------ U06.4 editor file key (F29)
 // MutableArchive::prepare_file_data: the key an added file is encrypted with is the published one for the flags the block
